@@ -2,6 +2,7 @@
 
 import ast
 
+from . import c06, c11
 from .. import assemblers as A
 from .. import kernels as K
 from .. import guards, roles, rules
@@ -22,7 +23,7 @@ LEVEL_NOTE = (
     "Not decided: curl H = -ik E and div E = 0 (need integration by parts over the surface), finite-difference "
     "accuracy, the limit r -> infinity as a limit (follows from the closed form by analysis)."
 )
-EXPLANATION = "rules POT-SUM, K-SPEC, K-TRANSLATION, K-PDE, MAXWELL-CURL-DIV (thorough), FARFIELD-REAL, FARFIELD-COMPLEX, FARFIELD-TRANSLATION, POT-REAL-ON-COMPLEX, FACTORY-*"
+EXPLANATION = "rules POT-SUM, K-SPEC, K-TRANSLATION, K-PDE, MAXWELL-CURL-DIV (thorough), FARFIELD-REAL, FARFIELD-COMPLEX, FARFIELD-TRANSLATION, POT-REAL-ON-COMPLEX, FACTORY-*, PIOLA, EDGE-CONV, K-SIGN-GUARD"
 ASSUMPTIONS = ["Numba arithmetic semantics", "per-source data are computed before the prange over evaluation points (checked: POT-SUM/source-data-hoisted)"]
 
 NK = K.NK
@@ -71,6 +72,8 @@ def run(ctx):
     rules.factory_sites(ctx, "potential")
     rules.factory_sites(ctx, "far_field")
     rules.launch_sites(ctx, which=("potential",))
+    c06.piola(ctx)  # the Maxwell kernels read the Piola-mapped functions and edge lengths from these helpers
+    c11.edge_convention(ctx)
 
 
 def far_field(ctx, reg):
